@@ -210,9 +210,9 @@ func main() {
 	basedir := r.Scratch()
 	total := r.RunSharded(vr.Workers(), func(sh vr.ShardInfo, p *vr.Partial) {
 		dir := fmt.Sprintf("%s/w%d", basedir, sh.Index)
-		for _, sc := range scs {
+		for si, sc := range scs {
 			sub := vr.NewPartial()
-			schedmc.Explore(setupFor(sc, dir), opts(sc.name), sh, sub, r.Expired)
+			schedmc.Explore(setupFor(sc, dir), opts(sc.name), sh, sub, r.Share(si, len(scs)))
 			for k := range sub.Violations {
 				v := &sub.Violations[k]
 				v.Sig = v.Sig[strings.Index(v.Sig, ": ")+2:]
